@@ -11,6 +11,10 @@ mkdir -p "$out"
 git -C /repo worktree remove --force "$wt" >/dev/null 2>&1
 git -C /repo worktree add --detach -q "$wt" HEAD || exit 3
 trap 'git -C /repo worktree remove --force "$wt" >/dev/null 2>&1' EXIT
+# demos may hard-code their author's worktree: point them at ours
+rd="$out/$(basename "$demo")"
+sed "s#/tmp/seed/C[0-9][0-9]\\([/'\"]\\)#$wt\\1#g; s#/tmp/seed/C[0-9][0-9]\$#$wt#g" "$demo" > "$rd"
+demo="$rd"
 run_demo() {
   case "$demo" in
     *test_*.py) (cd "$wt" && PYTHONPATH="$wt" timeout 900 /venv/bin/python -m pytest -q -p no:cacheprovider "$demo" >"$out/$1.log" 2>&1); echo $? ;;
